@@ -602,9 +602,10 @@ func build(x *Expr, compact bool) (c *Case, nDist, nAlts int, ok bool) {
 			break
 		}
 	}
-	if len(c.Vals) > 0 && (strings.Contains(text, "*") || strings.Contains(text, "<<")) {
+	if len(c.Vals) > 0 && (strings.Contains(text, "*") || strings.Contains(text, "<<") || ((strings.Contains(text, "-") || strings.Contains(text, "+")) && !tv.isBool == false)) {
 		// one more valuation with operands of full width: products and shifted values that leave the 32-bit range
-		// (and the 53 bits a float64 holds exactly) must wrap as Go's int32 does
+		// (and the 53 bits a float64 holds exactly) must wrap as Go's int32 does, and so must sums and differences that
+		// are then compared (a - b < 0 is not a < b)
 		e := env{}
 		m := map[string]any{}
 		hh := h ^ 0xb16b00b5
@@ -1135,7 +1136,17 @@ func TestLiteralChains(t *testing.T) {
 			}
 		}
 	}
-	r.Exhaustive("a op c1 op c2, c1 op a op c2 (all pairs of + - * | ^ &) and a op c1 op c2 op c3 (one operator) over seven full-width literals", fails == 0)
+	// sums and differences compared with zero: the comparison is of the wrapped value
+	b, cc, zero := Atom{Name: "b"}, Atom{Name: "c"}, Atom{Name: "0"}
+	for _, cmp := range []string{"<", "<=", ">", ">=", "==", "!="} {
+		for _, o := range []string{"-", "+"} {
+			try(&Expr{Atoms: []Atom{a, b, zero}, Ops: []string{o, cmp}})
+			try(&Expr{Atoms: []Atom{zero, a, b}, Ops: []string{cmp, o}})
+			try(&Expr{Atoms: []Atom{a, b, cc, zero}, Ops: []string{o, "*", cmp}})
+			try(&Expr{Atoms: []Atom{a, b, cc, zero}, Ops: []string{o, o, cmp}})
+		}
+	}
+	r.Exhaustive("a op c1 op c2, c1 op a op c2 (all pairs of + - * | ^ &) and a op c1 op c2 op c3 (one operator) over seven full-width literals; sums and differences of variables compared with 0", fails == 0)
 }
 
 // TestEnum3 enumerates every 3-operator expression (thorough tier, sharded).
